@@ -5,6 +5,9 @@ _paths_from_file_group with a harness-controlled clock (local time + zone offset
 Replay: the real function with the real clock frozen (freezegun, incl. tz_offset) and, for the
 UTC/local-day question, a real process-level TZ change.
 """
+import os as _os
+_os.environ["XH_NO_PATCH"] = "1"   # this process replays on the real code: never patch zorg here
+
 import datetime as dt
 import importlib.util
 import os
